@@ -126,6 +126,15 @@ fn step(t: &[&str]) -> String {
             let r = verif_get_discovered_writer_incompatible_qos_policy_list(&dr, &publ, &sq);
             format!("W:{} R:{}", ids(w), ids(r))
         }
+        // C15 partition part: ONE (pattern, name) test of the inline partition matching (`%e` = the empty string)
+        ["glob", pat, name] => {
+            let e = |x: &str| if x == "%e" { String::new() } else { x.to_string() };
+            match verif_partition_pattern_is_match(&e(pat), &e(name)) {
+                Some(true) => "1".into(),
+                Some(false) => "0".into(),
+                None => "invalid".into(),
+            }
+        }
         ["wcons", rest @ ..] => res(ent_writer(rest).verif_is_consistent()),
         ["rcons", rest @ ..] => res(ent_reader(rest).verif_is_consistent()),
         ["tcons", rest @ ..] => res(ent_topic(rest).verif_is_consistent()),
